@@ -303,8 +303,11 @@ HARNESS h_prolog_x64_light() { run<Arch::kX64, K_NONE, false, true>(Platform::kL
 HARNESS h_prolog_x64_kf_C07B() { run<Arch::kX64, K_C07B, true, true>(Platform::kLinux, PlatformABI::kGNU, CallConvId::kX64SystemV); }
 HARNESS h_prolog_x64_custom() { run<Arch::kX64, K_NONE, true, true>(Platform::kLinux, PlatformABI::kGNU, CallConvId::kX64SystemV); }
 HARNESS h_dbg() {
-  Environment env(Arch::kX86, SubArch::kUnknown, Vendor::kUnknown, Platform::kLinux, PlatformABI::kGNU);
-  FuncDetail fd; fd._call_conv.init(CallConvId::kCDecl, env);
+  uint32_t k = nondet_u8(); bool win = (k & 8) != 0;
+  Environment env(Arch::kX86, SubArch::kUnknown, Vendor::kUnknown, win ? Platform::kWindows : Platform::kLinux, win ? PlatformABI::kMSVC : PlatformABI::kGNU);
+  FuncDetail fd; fd._call_conv.init(ids32[k & 7], env);
+  for (RegGroup g : Support::enumerate(RegGroup::kMaxVirt)) fd._used_regs[g] = nondet_u32() & fd._call_conv._passed_regs[g];
+  fd._arg_stack_size = (nondet_u32() & 0xFC);
   FuncFrame f; f.init(fd);
   f._preserved_regs[RegGroup::kMask] = 0; f._preserved_regs[RegGroup::kX86_MM] = 0; f._preserved_regs[RegGroup::kVec] = 0;
   f.add_dirty_regs(RegGroup::kGp, nondet_u32() & 0xFFFF);
